@@ -217,7 +217,20 @@ pub struct Trace {
     /// A panic inside the client (message), if any.
     pub panic: Option<String>,
     pub watchdog: bool,
+    /// (applied, withheld) planned reductions of the broker's Maximum Packet Size on resumed connections
+    pub mps_shrinks: (u32, u32),
     pub now_calls: u64,
     /// `Will::new` / `ConfigBuilder` refused the configuration
     pub config_error: Option<String>,
+}
+
+impl Trace {
+    /// Maximum Packet Size the broker announced in the CONNACK of transport `tr` (the planned
+    /// value may have been withheld, see `Broker::effective_max_packet`).
+    pub fn announced_max_packet(&self, tr: usize) -> Option<u32> {
+        self.inbound.iter().filter(|p| p.tr == tr).find_map(|p| match &p.packet {
+            Some(crate::refcodec::Packet::ConnAck { props, .. }) => Some(props.iter().find_map(|q| if let crate::refcodec::Prop::MaximumPacketSize(v) = q { Some(*v) } else { None })),
+            _ => None,
+        })?
+    }
 }
